@@ -143,7 +143,8 @@ func runC07(c *Ctx) {
 	}
 
 	// ---- C07.E
-	c.Rule("C07.E", "the polling loop shares no wait with its workers; one goroutine per request", 3)
+	c.Rule("C07.E", "the polling loop shares no wait with its workers; one goroutine per request; one garbled ID does not fail the list", 4)
+	ruleListNotRejectedForOneElement(c, p, "C07.E")
 	ruleWorkerPerRequest(c, p, "C07.E")
 	c.Rule("C07.I", "offsets are applied to the value they were found in; possibly-nil pointers are tested before use", 4)
 	ruleIndexSliceAgreement(c, p, "C07.I", "agent/websockets", "agent/banner", "agent/utils", "agent/sessions")
@@ -153,6 +154,23 @@ func runC07(c *Ctx) {
 		for _, op := range ChanOpsOf(f) {
 			if op.Kind == "recv" && op.InSelect && op.HasDefault {
 				continue // non-blocking check of the polling context
+			}
+			// a bounded wait: a select whose arms are a fresh timer (the back-off delay) and the
+			// polling context's Done — it waits for no worker
+			if op.Kind == "recv" && op.InSelect && op.Select != nil {
+				timer, other := false, false
+				for _, st := range op.Select.States {
+					switch {
+					case st.Dir == types.RecvOnly && isTimerChan(st.Chan):
+						timer = true
+					case st.Dir == types.RecvOnly && isDoneChan(st.Chan):
+					default:
+						other = true
+					}
+				}
+				if timer && !other {
+					continue
+				}
 			}
 			bad = fmt.Sprintf("%s on %s at %s", op.Kind, PathOf(op.Chan), p.Pos(op.Instr.Pos()))
 		}
@@ -591,4 +609,81 @@ func blockReaches(a, b *ssa.BasicBlock) bool {
 		q = append(q, x.Succs...)
 	}
 	return false
+}
+
+// ruleListNotRejectedForOneElement: parsing the pending list fails only for the
+// reply as a whole (status, read error, JSON decode). An error return from inside
+// a loop over the decoded IDs rejects every request of that poll — and of every
+// later poll while the offending request stays pending — for the sake of one.
+func ruleListNotRejectedForOneElement(c *Ctx, p *Prog, rule string) {
+	f := c.need(p, rule, "agent/utils.parseRequestIDs")
+	if f == nil {
+		return
+	}
+	bad := ""
+	n := 0
+	for _, fn := range p.AllFuncsIn("agent/utils") {
+		if fn != f && TopFunc(fn) != f && !(IsNewHelper(fn) && helperCalledFrom(fn, f)) {
+			continue
+		}
+		EachInstrRaw(fn, func(i ssa.Instruction) {
+			r, ok := i.(*ssa.Return)
+			if !ok || len(r.Results) == 0 {
+				return
+			}
+			last := r.Results[len(r.Results)-1]
+			if NamedType(last.Type()) != "error" || IsNilConst(last) {
+				return
+			}
+			n++
+			if fn == f && InLoop(r.Block()) {
+				bad = "the error return at " + p.Pos(r.Pos()) + " is inside a loop over the listed IDs"
+			}
+		})
+		// a validation helper called per element whose failure leaves parseRequestIDs
+		if fn == f {
+			EachInstrRaw(fn, func(i ssa.Instruction) {
+				cc := CallOf(i)
+				if cc == nil || !InLoop(i.Block()) {
+					return
+				}
+				g := StaticFunc(cc)
+				if g == nil || !p.IsModFunc(g) {
+					return
+				}
+				call, isCall := i.(*ssa.Call)
+				if !isCall || NamedType(call.Type()) != "error" {
+					return
+				}
+				// the element's error decides a return of the whole function
+				for _, ref := range Refs(call) {
+					if bo, isB := ref.(*ssa.BinOp); isB {
+						for _, rr := range Refs(bo) {
+							if ifi, isIf := rr.(*ssa.If); isIf {
+								for _, succ := range ifi.Block().Succs {
+									for _, j := range succ.Instrs {
+										if _, isRet := j.(*ssa.Return); isRet {
+											bad = "the result of " + FuncName(g) + " for one ID decides a return of the whole list at " + p.Pos(j.Pos())
+										}
+									}
+								}
+							}
+						}
+					}
+				}
+			})
+		}
+	}
+	c.Check(rule, "list:not-rejected-for-one-element", p, f.Pos(), bad == "" && n >= 1, fmt.Sprintf("%d error returns of parseRequestIDs: none depends on a single listed ID", n), "parseRequestIDs rejects the whole pending list because of one element ("+bad+"): healthy requests listed next to a garbled ID are never served, and the garbled one keeps every later poll failing")
+}
+
+// helperCalledFrom: fn has a static call site in top (or in a function spliced into it).
+func helperCalledFrom(fn, top *ssa.Function) bool {
+	found := false
+	EachInstr(top, func(i ssa.Instruction) {
+		if cc := CallOf(i); cc != nil && StaticFunc(cc) == fn {
+			found = true
+		}
+	})
+	return found
 }
